@@ -18,6 +18,9 @@ Python → Lean
                                                                : `initializeBackend`
 * `ParallelBackendBase.get_nested_backend` / `SequentialBackend.get_nested_backend`
                                                                : `getNestedBackend`
+* loky's reusable executor, as far as the NUMBER of live worker processes goes
+  (`_ReusablePoolExecutor.get_reusable_executor` / `_resize` / `submit` → `_adjust_process_count`)
+                                                               : `Pool`, `resize`, `submitEnsure`, `getReusableExecutor`
 Import-free apart from the backend classes of `JoblibModel.Config`; total, computable.
 -/
 namespace JoblibModel.NJobs
@@ -191,5 +194,39 @@ def workerEnv (cls : BackendClass) (env : EffEnv) : EffEnv :=
 /-- The class starts worker *processes* when it gets more than one job. -/
 def processBased : BackendClass → Bool
   | .multiprocessing => true | .loky => true | _ => false
+
+/-! ## loky's reusable executor: how many workers a later call finds -/
+
+/-- `_max_workers`, `len(self._processes)` (live workers), `_executor_manager_thread is not None`. -/
+structure Pool where
+  maxWorkers : Nat
+  alive : Nat
+  started : Bool
+deriving Repr, DecidableEq, Inhabited
+
+/-- A new executor: nothing is spawned before the first `submit`. -/
+def Pool.fresh (max_workers : Nat) : Pool := ⟨max_workers, 0, false⟩
+
+/-- `_ReusablePoolExecutor._resize(max_workers)` (called between calls: no job is pending). -/
+def resize (p : Pool) (max_workers : Nat) : Pool :=
+  if max_workers = p.maxWorkers then p
+  else if !p.started then { p with maxWorkers := max_workers }   -- no process spawned yet
+  else
+    -- one `None` sentinel per surplus live worker, wait until they are gone …
+    let nb_children_alive := min p.alive max_workers
+    -- … then `_adjust_process_count()` spawns up to `max_workers`
+    { p with maxWorkers := max_workers, alive := max nb_children_alive max_workers }
+
+/-- `submit` → `_ensure_executor_running` → `_adjust_process_count`:
+`while len(self._processes) < self._max_workers: spawn`. -/
+def submitEnsure (p : Pool) : Pool :=
+  { p with started := true, alive := max p.alive p.maxWorkers }
+
+/-- `get_reusable_executor(max_workers=n_jobs, …)`: a new executor when there is none or its
+arguments (worker environment, timeout, …) differ; otherwise the existing one, resized. -/
+def getReusableExecutor (cur : Option Pool) (same_args : Bool) (n_jobs : Nat) : Pool :=
+  match cur with
+  | some p => if same_args then resize p n_jobs else Pool.fresh n_jobs
+  | none => Pool.fresh n_jobs
 
 end JoblibModel.NJobs
